@@ -1095,6 +1095,117 @@ package whispertool
 
 // ---------------------------------------------------------------- text syntax (C19)
 
+//@ func TimestampFromStdTime
+//@   props C19
+//@   ensures zero: ghost(tzero, t) == 1 ==> result == 0
+//@   ensures exact: ghost(tzero, t) != 1 && 0 <= ghost(unix, t) && ghost(unix, t) <= 4294967295 ==> result == ghost(unix, t)
+
 //@ func ParseTimestamp
 //@   props C19 C12 C16
 //@   ensures kind: result1 == nil || isother(result1)
+//@   check[C19] exact: result1 == nil ==> (ghost(tzero, t) == 1 && result0 == 0) || result0 == ghost(unix, t)
+
+//@ spec isDigit(c int) bool = 48 <= c && c <= 57
+//@ spec decval(r bytes, off int, k int) rec int = ite(k <= 0, 0, decval(r, off, k - 1) * 10 + (r[off + k - 1] - 48))
+//@ spec digitsTo(r bytes, off int, k int) bool = forall j :: 0 <= j && j < k ==> isDigit(r[off + j])
+
+//@ lemma dec_nonneg(r bytes, off int, n int)
+//@   props C19
+//@   requires 0 <= n && digitsTo(r, off, n)
+//@   decreases n
+//@   use dec_nonneg(r, off, n - 1) when 0 < n
+//@   ensures nonneg: 0 <= decval(r, off, n)
+
+//@ lemma dec_step(r bytes, off int, j int, n int)
+//@   props C19
+//@   requires 0 <= j && j <= n && digitsTo(r, off, n)
+//@   decreases n - j
+//@   use dec_nonneg(r, off, j)
+//@   use dec_nonneg(r, off, n - 1) when j < n
+//@   use dec_step(r, off, j, n - 1) when j < n
+//@   ensures nonneg: 0 <= decval(r, off, j)
+//@   ensures mono: decval(r, off, j) <= decval(r, off, n)
+
+//@ func leadingInt
+//@   props C19
+//@   use dec_step(row(s), s.off, j, n) forall j, n
+//@   ensures ok_rem: result2 == nil ==> len(s) - len(result1) >= 1 && len(result1) >= 0 && result1.arr == s.arr && result1.off == s.off + (len(s) - len(result1))
+//@   ensures ok_digits: result2 == nil ==> digitsTo(row(s), s.off, len(s) - len(result1)) && (len(result1) > 0 ==> !isDigit(result1[0]))
+//@   ensures ok_value: result2 == nil ==> result0 == decval(row(s), s.off, len(s) - len(result1))
+//@   ensures failed: result2 != nil ==> result0 == 0 && len(result1) == 0
+//@   ensures complete: forall k :: 1 <= k && k <= len(s) && digitsTo(row(s), s.off, k) && (k == len(s) || !isDigit(s[k]))
+//@                 && decval(row(s), s.off, k) <= 2147483647 && (decval(row(s), s.off, k) != 0 || k == 1) ==> result2 == nil
+//@ loop leadingInt#0
+//@   invariant bounds: 0 <= i && i <= len(s) && 0 <= x
+//@   invariant digits: digitsTo(row(s), s.off, i)
+//@   invariant value: x == decval(row(s), s.off, i)
+//@   invariant next: mention(decval(row(s), s.off, i + 1))
+
+//@ spec unitOf(c int) int = ite(c == 115, 1, ite(c == 109, 60, ite(c == 104, 3600, ite(c == 100, 86400, ite(c == 119, 604800, ite(c == 121, 31536000, 0))))))
+
+//@ func unitMultiplier
+//@   props C19
+//@   ensures ok: result1 == nil <==> (len(s) > 0 && unitOf(s[0]) != 0)
+//@   ensures value: result1 == nil ==> result0 == unitOf(s[0])
+
+//@ func ParseDuration
+//@   props C19 C07
+//@   use dec_nonneg(row(s), s.off, len(s) - 1) when len(s) >= 1 && digitsTo(row(s), s.off, len(s) - 1)
+//@   ensures shape: result1 == nil ==> len(s) >= 2 && digitsTo(row(s), s.off, len(s) - 1) && unitOf(s[len(s) - 1]) != 0
+//@   ensures exact: result1 == nil ==> result0 == decval(row(s), s.off, len(s) - 1) * unitOf(s[len(s) - 1]) && 0 <= result0 && result0 <= 2147483647
+//@   ensures rejects: result1 != nil ==> result0 == 0
+//@   ensures complete: len(s) >= 2 && digitsTo(row(s), s.off, len(s) - 1) && unitOf(s[len(s) - 1]) != 0
+//@                 && (decval(row(s), s.off, len(s) - 1) != 0 || len(s) == 2)
+//@                 && decval(row(s), s.off, len(s) - 1) * unitOf(s[len(s) - 1]) <= 2147483647 ==> result1 == nil
+
+//@ spec durText(r string, d int) bool = len(r) >= 2 && digitsTo(row(r), r.off, len(r) - 1) && unitOf(r[len(r) - 1]) != 0
+//@        && decval(row(r), r.off, len(r) - 1) * unitOf(r[len(r) - 1]) == d && (r[0] != 48 || len(r) == 2)
+
+//@ func (Duration).String
+//@   props C19
+//@   requires d >= 0
+//@   ensures text: durText(result, d)
+//@   ensures largest_unit: forall u :: (u == 60 || u == 3600 || u == 86400 || u == 604800 || u == 31536000) && d != 0 && d fmod u == 0 ==> unitOf(result[len(result) - 1]) >= u
+
+//@ lemma dec_pos(r bytes, off int, k int)
+//@   props C19
+//@   requires 1 <= k && digitsTo(r, off, k) && r[off] != 48
+//@   decreases k
+//@   use dec_pos(r, off, k - 1) when 1 < k
+//@   ensures pos: decval(r, off, k) >= 1
+
+//@ lemma duration_roundtrip(r string, d int)
+//@   props C19
+//@   requires 0 <= d && d <= 2147483647 && durText(r, d)
+//@   use dec_pos(row(r), r.off, len(r) - 1) when r[0] != 48
+//@   ensures accepted_shape: len(r) >= 2 && digitsTo(row(r), r.off, len(r) - 1) && unitOf(r[len(r) - 1]) != 0
+//@                 && (decval(row(r), r.off, len(r) - 1) != 0 || len(r) == 2) && decval(row(r), r.off, len(r) - 1) * unitOf(r[len(r) - 1]) <= 2147483647
+
+//@ spec durIn(r string, lo int, hi int, v int) bool = hi - lo >= 2 && digitsTo(row(r), r.off + lo, hi - lo - 1) && unitOf(r[hi - 1]) != 0
+//@        && v == decval(row(r), r.off + lo, hi - lo - 1) * unitOf(r[hi - 1]) && 0 <= v && v <= 2147483647
+
+//@ lemma exact_div(d int, s int)
+//@   props C19 C07
+//@   requires s > 0 && d >= 0 && d % s == 0
+//@   ensures exact: (d / s) * s == d
+
+//@ func ParseArchiveInfo
+//@   props C19 C07
+//@   use exact_div(d, step) when step > 0 && d >= 0 && d % step == 0 at d
+//@   check exact: result1 == nil ==> 1 <= i && i + 1 < len(s) && s[i] == 58 && (forall j :: 0 <= j && j < i ==> s[j] != 58)
+//@                 && durIn(s, 0, i, step) && durIn(s, i + 1, len(s), d)
+//@                 && step > 0 && d > 0 && result0.secondsPerPoint == step && result0.numberOfPoints * step == d
+//@   ensures rejects: result1 != nil ==> result0.secondsPerPoint == 0 && result0.numberOfPoints == 0
+
+//@ func ParseArchiveInfoList
+//@   props C19 C07
+//@   ensures ok: result1 == nil ==> wellFormed(result0) && len(s) > 0
+//@   ensures rejects: result1 != nil ==> len(result0) == 0
+//@ loop ParseArchiveInfoList#0
+//@   invariant fresh: (len(archiveInfoList) == 0 && archiveInfoList.arr == 0) || archiveInfoList.arr > old(top)
+//@   invariant nonempty: len(s) > 0
+
+//@ func (ArchiveInfo).String
+//@   props C19
+//@   requires a.secondsPerPoint > 0 && 0 <= a.secondsPerPoint * a.numberOfPoints && a.secondsPerPoint * a.numberOfPoints <= 2147483647 && a.numberOfPoints <= 2147483647
+//@   ensures any: true
